@@ -3,13 +3,36 @@
 #define VF_CONTRACTS_H
 #include "low.h"
 
+/* CBMC's built-in checks stay enabled in the lowered library code and in the std model (compiled separately);
+ * they are switched off inside the contract sources: a dereference check on every sub-expression of every
+ * clause multiplies the query size (probe: Data::frame 121 s / out of memory with them, 2.4 s without) and adds
+ * nothing: a clause that reads through an invalid pointer reads a nondeterministic value and cannot be proved. */
+#pragma CPROVER check push
+#pragma CPROVER check disable "pointer"
+#pragma CPROVER check disable "bounds"
+#pragma CPROVER check disable "pointer-overflow"
+#pragma CPROVER check disable "pointer-primitive"
+#pragma CPROVER check disable "signed-overflow"
+
+#pragma CPROVER check disable "conversion"
+#pragma CPROVER check disable "undefined-shift"
+#pragma CPROVER check disable "div-by-zero"
+
 /* ghost indices: left unconstrained by every harness, so a clause stated at vf_gk holds for every index */
-extern size_t vf_gk, vf_gj, vf_gc;
+/* one ghost index per container kind, used consistently by every contract:
+ *   vf_gf stored frames        vf_gj points of a frame / channels of a sub-frame   vf_gk sub-frames of a frame
+ *   vf_gc characters of a string   vf_gg groups   vf_gp parameters of a group   vf_gd dimensions   vf_gv values */
+extern size_t vf_gk, vf_gj, vf_gc, vf_gf, vf_gg, vf_gp, vf_gd, vf_gv;
+#define VF_GHOSTS size_t vf_gk, vf_gj, vf_gc, vf_gf, vf_gg, vf_gp, vf_gd, vf_gv;
 
 /* container sizes are capped so that element addresses stay inside CBMC's 55-bit offsets; 10^5 is far above
  * anything the format can carry (65535 frames, 255 points, 255 parameters) */
 /* ghost state of the allocation model (not library state): written by every new / new[] */
-#define VF_GHOST_ALLOC vf_trk_ptr, vf_trk_kind, vf_max_alloc
+#ifdef VF_TRACK_ALLOC
+#define VF_GHOST_ALLOC , vf_trk_ptr, vf_trk_kind, vf_max_alloc
+#else
+#define VF_GHOST_ALLOC
+#endif
 
 #define VF_MAXN ((size_t)100000)
 #define VF_MAXSTR ((size_t)4096)
